@@ -90,11 +90,11 @@ theorem takeStep_spec (c : FCtx) (bs y : Rat) (fs : FState) (f : Fn) (hok : StOk
 
 /-! ### the footnote loop of one line -/
 
-theorem footLoop_spec (c : FCtx) (guard : Bool) (bs y : Rat) (F : List Fn) (fs : FState) (hok : StOk fs)
+theorem footLoop_spec (c : FCtx) (guard pie : Bool) (bs y : Rat) (F : List Fn) (fs : FState) (hok : StOk fs)
     (hF : ∀ f ∈ F, f ∈ fs.pending) (hnd : F.Nodup) :
-    ∃ F1 F2, F = F1 ++ F2 ∧ ((footLoop c guard bs y F fs).1 = .ok → F2 = []) ∧
-      StOk (footLoop c guard bs y F fs).2 ∧ act (footLoop c guard bs y F fs).2 = act fs ++ F1 ∧
-      (∀ g, g ∈ (footLoop c guard bs y F fs).2.pending ↔ g ∈ fs.pending ∧ g ∉ F1) := by
+    ∃ F1 F2, F = F1 ++ F2 ∧ ((footLoop c guard pie bs y F fs).1 = .ok → F2 = []) ∧
+      StOk (footLoop c guard pie bs y F fs).2 ∧ act (footLoop c guard pie bs y F fs).2 = act fs ++ F1 ∧
+      (∀ g, g ∈ (footLoop c guard pie bs y F fs).2.pending ↔ g ∈ fs.pending ∧ g ∉ F1) := by
   induction F generalizing fs with
   | nil => exact ⟨[], [], rfl, fun _ => rfl, by simpa [footLoop] using hok, by simp [footLoop], by simp [footLoop]⟩
   | cons f rest ih =>
@@ -124,10 +124,15 @@ theorem footLoop_spec (c : FCtx) (guard : Bool) (bs y : Rat) (F : List Fn) (fs :
         · rw [← hts]; exact ha1
         · rw [← hts]; exact hmem1
       · split
-        · refine ⟨[f], rest, rfl, by simp, ?_, ?_, ?_⟩
-          · rw [← hts]; exact hok1
-          · rw [← hts]; exact ha1
-          · rw [← hts]; exact hmem1
+        · split
+          · refine ⟨[f], rest, rfl, by simp, ?_, ?_, ?_⟩
+            · rw [← hts]; exact hok1
+            · rw [← hts]; exact ha1
+            · rw [← hts]; exact hmem1
+          · refine ⟨[f], rest, rfl, by simp, ?_, ?_, ?_⟩
+            · rw [← hts]; exact hok1
+            · rw [← hts]; exact ha1
+            · rw [← hts]; exact hmem1
         · rw [← hts]
           refine ⟨f :: F1, F2, by simp [hsplit], hokk, hok2, by rw [ha2, ha1]; simp, ?_⟩
           intro g
@@ -142,8 +147,8 @@ theorem footLoop_spec (c : FCtx) (guard : Bool) (bs y : Rat) (F : List Fn) (fs :
       simp [and_assoc]
 
 /-- Without `footnote-policy: block` the loop never aborts the paragraph. -/
-theorem footLoop_no_abort (c : FCtx) (guard : Bool) (bs y : Rat) (F : List Fn) (fs : FState)
-    (h : ∀ f ∈ F, f.policy ≠ .block) : (footLoop c guard bs y F fs).1 ≠ .abort := by
+theorem footLoop_no_abort (c : FCtx) (guard pie : Bool) (bs y : Rat) (F : List Fn) (fs : FState)
+    (h : ∀ f ∈ F, f.policy ≠ .block) : (footLoop c guard pie bs y F fs).1 ≠ .abort := by
   induction F generalizing fs with
   | nil => simp [footLoop]
   | cons f rest ih =>
@@ -162,6 +167,48 @@ theorem footLoop_no_abort (c : FCtx) (guard : Bool) (bs y : Rat) (F : List Fn) (
           · exact ih _ hr
       · exact ih _ hr
     · exact ih _ hr
+
+/-- On an empty page the loop never aborts the paragraph, whatever the policies (repair 67bf2ca:
+`footnote-policy: block` then breaks before the line). -/
+theorem footLoop_no_abort_pie (c : FCtx) (guard : Bool) (bs y : Rat) (F : List Fn) (fs : FState) :
+    (footLoop c guard true bs y F fs).1 ≠ .abort := by
+  induction F generalizing fs with
+  | nil => simp [footLoop]
+  | cons f rest ih =>
+    unfold footLoop
+    split
+    · dsimp only
+      split
+      · split
+        · simp
+        · split
+          · simp
+          · exact ih _
+      · exact ih _
+    · exact ih _
+
+/-- The loop aborts only under the guard (`new_children or not page_is_empty`) and off an empty page. -/
+theorem footLoop_abort_guard (c : FCtx) (guard pie : Bool) (bs y : Rat) (F : List Fn) (fs : FState)
+    (h : (footLoop c guard pie bs y F fs).1 = .abort) : guard = true ∧ pie = false := by
+  induction F generalizing fs with
+  | nil => simp [footLoop] at h
+  | cons f rest ih =>
+    unfold footLoop at h
+    split at h
+    · dsimp only at h
+      split at h
+      · split at h
+        · simp at h
+        · split at h
+          · rename_i hb
+            simp only [Bool.and_eq_true, beq_iff_eq] at hb
+            split at h
+            · simp at h
+            · rename_i hp
+              exact ⟨hb.1, by simpa using hp⟩
+          · exact ih _ h
+      · exact ih _ h
+    · exact ih _ h
 
 /-! ### un-laying-out -/
 
